@@ -53,7 +53,9 @@ def gen_case(rng, idx, dwin=False, reuse=False):
             'ap': [8] if ne16 else rng.sample(PRECS, rng.randint(1, 3)), 'wp': wp, 'T': T,
             'gumbel': (rng.random() < 0.4) and phase == 'eval', 'hard': True if phase == 'hardtrain' else rng.random() < 0.3,
             'dsq': rng.random() < 0.25 and mode != 'chan0', 'phase': phase, 'idx': idx, 'dwin': dwin,
-            'respec': rng.choice([None, None, None, 'single', 'rebind', 'rebind-one']), 'batch': rng.choice([None, None, 1, 2, 3, 4])}
+            'respec': rng.choice([None, None, None, 'single', 'rebind', 'rebind-one']), 'batch': rng.choice([None, None, 1, 2, 3, 4]),
+            # mode of the wrapped network at construction; 'eval-as-returned': eval at construction and NO .eval()/.train() call afterwards
+            'handin': (rng.choice(['eval', 'train', 'eval-as-returned', 'eval-as-returned']) if phase == 'eval' else rng.choice(['eval', 'train']))}
 
 
 def gen_dwsel(rng, idx):
@@ -108,7 +110,8 @@ def gen_dwsel(rng, idx):
             'ap': rng.sample(PRECS, rng.randint(1, 3)), 'wp': wp, 'T': round(math.exp(rng.uniform(math.log(0.05), math.log(20))), 4),
             'gumbel': False, 'hard': phase == 'hardtrain' or rng.random() < 0.3, 'dsq': True, 'phase': phase, 'idx': idx, 'dwin': False,
             'dwsel': {'variant': rng.choice(['prod-prunes', 'prod-prunes', 'dw-prunes']), 'prod': prod, 'dw': dw, 'a': a, 'b': b,
-                      'pruned': sorted(rng.sample(range(C), npr))}}
+                      'pruned': sorted(rng.sample(range(C), npr))},
+            'handin': (rng.choice(['eval', 'train', 'eval-as-returned']) if phase == 'eval' else rng.choice(['eval', 'train']))}
 
 
 def _ltype(nd):
@@ -170,6 +173,9 @@ def run_case(c):
         # how the cost specification reaches the model: given at construction (default), or re-assigned afterwards through the
         # cost_specification setter: single spec -> dict; dict -> dict with the SAME names bound to other CostSpecs (names
         # permuted / re-bound).  get_cost(name) must always evaluate what the name is bound to NOW.
+        # construction-time mode of the wrapped network: every sub-module of the wrapper must come back in that mode
+        handin_train = c.get('handin') == 'train'
+        m.train(handin_train)
         rs = c.get('respec')
         init_cost = specs
         if rs == 'single':
@@ -189,6 +195,7 @@ def run_case(c):
         p = MPS(m, qinfo=get_default_qinfo(tuple(c['wp']), tuple(c['ap'])), cost=init_cost, **tr,
                 w_search_type=MPSType.PER_LAYER if c['mode'] == 'layer' else MPSType.PER_CHANNEL,
                 temperature=c['T'], gumbel_softmax=c['gumbel'], hard_softmax=c['hard'], disable_shared_quantizers=c['dsq'])
+        obs['mode_mismatch'] = sorted(n_ or '<root>' for n_, md_ in p.named_modules() if md_.training != handin_train)[:8]
         if rs:
             p.cost_specification = specs
         rng = random.Random(c['aseed'])
@@ -222,7 +229,9 @@ def run_case(c):
         g = torch.Generator().manual_seed(c['seed'] ^ 0x5bd1)
         x = torch.rand((2,) + ishape, generator=g)
         stage = 'forward'
-        if c['phase'] == 'eval':
+        if c.get('handin') == 'eval-as-returned':
+            pass            # network handed over in eval mode and the wrapper used as MPS() returned it: no mode call at all
+        elif c['phase'] == 'eval':
             p.eval()
         else:
             p.train()
@@ -369,6 +378,9 @@ def oracle(c, o):
                 return [(DWIN_KEY, 'layer node %d (%s): cost function shown %s=%r but only %r channels of its input survive (producer: depthwise conv. on the network input with pruned channels)' % (node, kd, ik, sh[ik], feats[node][0]))]
         return []
     out = []
+    if o.get('mode_mismatch'):
+        out.append(('mps-wrapper-mode-differs-from-model-handed-in', 'network handed to MPS() in %s mode, but these sub-modules of the wrapper have the other mode: %r'
+                    % ('train' if c.get('handin') == 'train' else 'eval', o['mode_mismatch'])))
     costs = o['costs']
     for k, v in costs.items():
         if not isinstance(v, float):
@@ -509,7 +521,7 @@ def run(ctx):
     built = ctx.build()
     ctx.extra['generated_model'] = c05_gen.status(gen_rejected, built)
     ctx.rule = ('grammar networks of vlib/mps_gen.py x search mode {per-layer (1/2), per-channel, per-channel with 0-bit (1/3)} x precision tuples from {2,4,8} (+0), any order x random alpha with arg-max margin '
-                'x temperature in [0.05,20] x gumbel/hard/disable_shared_quantizers flags x phase {eval, training with hard non-Gumbel sampling} x cost specification {given at construction, re-assigned through the cost_specification setter: single -> dict, dict -> dict with the names re-bound / permuted} x tracing input {input_shape, input_example of batch 1..4: costs are per inference}; NE16 cases: activations (8,), kernels {1,3}. '
+                'x temperature in [0.05,20] x gumbel/hard/disable_shared_quantizers flags x phase {eval, training with hard non-Gumbel sampling} x mode of the wrapped network at construction {eval, train, eval and the wrapper then used as returned without any .eval()/.train() call} x cost specification {given at construction, re-assigned through the cost_specification setter: single -> dict, dict -> dict with the names re-bound / permuted} x tracing input {input_shape, input_example of batch 1..4: costs are per inference}; NE16 cases: activations (8,), kernels {1,3}. '
                 'separate streams: (r) one conv (c->c) / linear (h->h) module invoked twice, at the same or (after pooling) another resolution: per-invocation specs compared per call site; (a) pruned depthwise layer in the network-input group (open finding, own key); (b) disable_shared_quantizers=True x per-channel 0-bit x chain conv -> depthwise (Conv1d and Conv2d) where the producer prunes channels the depthwise layer keeps (cost DIFFERENCE when only the depthwise bits change must be own weights x delta bits) or vice versa. '
                 'one case = one network with one coefficient assignment, 5-6 cost specs; distinct by (architecture, mode, precisions, selected assignment); non-trivial = some layer has >= 2 candidate weight precisions')
     n = 240 if ctx.quick else 2400
@@ -540,6 +552,7 @@ def run(ctx):
         ctx.case(key, nontrivial=len(c['wp']) > 1, kind='exc' if o['exc'] else c['mode'] + ':' + c['phase'],
                  sample={'nodes': kinds, 'mode': c['mode'], 'phase': c['phase'], 'ap': c['ap'], 'wp': c['wp'], 'T': c['T'], 'costs': o.get('costs')})
         ctx.dist['ne16:%s' % c['ne16']] += 1
+        ctx.dist['handed-in:%s' % c.get('handin', 'eval')] += 1
         ctx.dist['cost-spec:%s' % (c.get('respec') or 'at-construction')] += 1
         ctx.dist['tracing:%s' % ('input_shape' if not c.get('batch') else 'input_example-batch-%d' % c['batch'])] += 1
         if G.has_reuse(c['nodes']):
@@ -616,6 +629,7 @@ def replay(r):
         return 1
     o = run_case(c)
     print('network:', [nd['k'] for nd in c['nodes']])
+    print('network handed to MPS() in mode:', c.get('handin', 'eval'))
     print('cost specification:', c.get('respec') or 'given at construction', '| tracing input:', 'input_shape' if not c.get('batch') else 'input_example with batch %d' % c['batch'])
     print('mode', c['mode'], 'phase', c['phase'], 'activation precisions', c['ap'], 'weight precisions', c['wp'], 'T', c['T'])
     print('property requires: get_cost == exact bit cost of the assignment summary() reports; cost functions shown effective feature counts under in_channels/out_channels (conv) resp. in_features/out_features (linear)')
